@@ -209,7 +209,7 @@ def run(ck, prog, ctx):
                 seen_ids.add(rb_.id)
     else:
         bodies = [calc]
-        if not float_div_sites(calc):
+        if True:
             # `calculate` hands the arithmetic on to a private helper (`IcTotal::information_content`): examined wherever it lives
             for rid in sorted(prog.reachable_bodies([calc.id])):
                 rb_ = prog.bodies.get(rid)
@@ -255,7 +255,7 @@ def run(ck, prog, ctx):
                 if re.search(r"(^|::)(f32_from_usize|usize_to_f32)$", r) and len(obj.args) == 1:
                     return ex.operand(body, obj.args[0], 0, getattr(ex, "_at", None))
             return None
-        EX = Extract(prog, pv, leaf)
+        EX = Extract(prog, pv, leaf, fold_named=True)  # `NEGATE = -1.0`: no rule judges such a constant where it is defined, its value belongs to this formula
         want = ("neg", F("ln", div(S("current"), S("total"))))
         rets = []
         for kind, pos, d in pv.defs(calc).get(0, []):
